@@ -270,7 +270,11 @@ func drawHooks(t *rapid.T) Hooks {
 	if m >= 32 { // half of the cases install everything
 		m = 31
 	}
-	return Hooks{LoadPre: m&1 != 0, LoadPost: m&2 != 0, Store: m&4 != 0, SpanRewrite: m&8 != 0, DetailRewrite: m&16 != 0}
+	h := Hooks{LoadPre: m&1 != 0, LoadPost: m&2 != 0, Store: m&4 != 0, SpanRewrite: m&8 != 0, DetailRewrite: m&16 != 0}
+	if h.LoadPost {
+		h.LoadPostLean = rapid.Bool().Draw(t, "loadPostLean")
+	}
+	return h
 }
 
 func drawPassiveExts(t *rapid.T, min, max int) []Ext {
@@ -1221,7 +1225,7 @@ func enumContexts(s *rt.Section, run *rt.Run) {
 						}
 						hooks := Hooks{}
 						if hk == 1 {
-							hooks = Hooks{true, true, true, true, true}
+							hooks = Hooks{LoadPre: true, LoadPost: true, Store: true, SpanRewrite: true, DetailRewrite: true}
 						}
 						c := buildCtxCase(ctx.tmpl, ctx.guarded, syn, v, k, hooks)
 						s.Eval()
